@@ -14,11 +14,15 @@ import (
 	"encoding/binary"
 	"errors"
 	"fmt"
+	"io"
 	"net"
+	"net/http"
+	"net/http/httptest"
 	"net/netip"
 	"os"
 	"sort"
 	"strings"
+	"sync"
 	"time"
 
 	"github.com/miekg/dns"
@@ -356,6 +360,89 @@ func execXchg(f []string) vlib.Res {
 	}
 	if strings.HasPrefix(f[5], "0:") || strings.Contains(f[5], ";0:") || strings.Contains(f[5], ";0t") {
 		tags += ",xchg-id0"
+	}
+	return vlib.Res{Impl: impl, Oracle: or, Tags: tags}
+}
+
+// ---------------------------------------------------------------- DoH transport of dnsclient.Client
+
+var (
+	dohOnce sync.Once
+	dohSrv  *httptest.Server
+	dohMu   sync.Mutex
+	dohBody []byte
+	dohCode int
+	dohCT   string
+)
+
+// doh run <qid> <q|-> <cand> <skipq t|f>     cand as in xchg (one HTTP response body), or h = HTTP 500, c = wrong content type
+func execDoH(f []string) vlib.Res {
+	dohOnce.Do(func() {
+		dohSrv = httptest.NewServer(http.HandlerFunc(func(w http.ResponseWriter, r *http.Request) {
+			io.Copy(io.Discard, r.Body)
+			dohMu.Lock()
+			body, code, ct := dohBody, dohCode, dohCT
+			dohMu.Unlock()
+			w.Header().Set("Content-Type", ct)
+			w.WriteHeader(code)
+			w.Write(body)
+		}))
+	})
+	qid := uint16(vlib.Atoi(f[2]))
+	req := new(dns.Msg)
+	req.Id = qid
+	var rq *xq
+	if f[3] != "-" {
+		q := parseXQ(f[3])
+		rq = &q
+		req.Question = []dns.Question{{Name: q.name, Qtype: q.qt, Qclass: q.qc}}
+	}
+	var cand xcand
+	code, ct := 200, "application/dns-message"
+	switch f[4] {
+	case "h":
+		code = 500
+		cand = xcand{kind: "e"}
+	case "c":
+		ct = "text/plain"
+		cand = xcand{kind: "e"}
+	default:
+		cand = parseCands(f[4])[0]
+	}
+	dohMu.Lock()
+	dohBody, dohCode, dohCT = candBytes(0, cand), code, ct
+	dohMu.Unlock()
+	skipq := f[5] == "t"
+	c := &dnsclient.Client{Proto: "doh", DoHURL: dohSrv.URL + "/dns-query", DoHClient: dohSrv.Client(), Timeout: 2 * time.Second, SkipQuestionCheck: skipq}
+	resp, _, err := c.Exchange(context.Background(), req, "")
+	impl := ""
+	switch {
+	case err == nil && resp != nil:
+		impl = "ok 0"
+	case errors.Is(err, dnsclient.ErrQuestion):
+		impl = "err question"
+	case err != nil && strings.Contains(err.Error(), "ID mismatch"):
+		impl = "err id"
+	case err != nil:
+		impl = "err read"
+	default:
+		impl = "nil nil"
+	}
+	or := "ok"
+	if err == nil {
+		switch {
+		case cand.kind != "m":
+			or = fail("doh/accepted-unparsable", "")
+		case cand.id != qid && cand.id != 0:
+			or = fail("doh/accepted-wrong-id", "want=%d (or 0) got=%d", qid, cand.id)
+		case rq != nil && !skipq && (len(cand.qs) != 1 || cand.qs[0].qt != rq.qt || cand.qs[0].qc != rq.qc ||
+			strings.Join(oLabels(cand.qs[0].name), "\x00") != strings.Join(oLabels(rq.name), "\x00")):
+			or = fail("doh/accepted-wrong-question", "asked=%v got=%v", *rq, cand.qs)
+		}
+	}
+	tags := "nt,doh"
+	if qid == 0 {
+		tags += ",doh-qid0"
 	}
 	return vlib.Res{Impl: impl, Oracle: or, Tags: tags}
 }
